@@ -250,6 +250,9 @@ func (h *SH) Sub(ctx context.Context, tok int, n int) (<-chan int, error) {
 	return out, nil
 }
 
+// Div returns a/b: for b = 0 a value encoding/json refuses (NaN or an infinity).
+func (h *SH) Div(a, b float64) (float64, error) { return a / b, nil }
+
 // Put takes a payload of any size and reports its length.
 func (h *SH) Put(ctx context.Context, tok int, payload string) (int, error) {
 	h.C.enter(ctx, "Put", tok)
@@ -479,6 +482,7 @@ type CL struct {
 	SubOdd        func(context.Context, int, int) (<-chan float64, error)
 	SubBoth       func(context.Context, int, int) (<-chan int, error)
 	Put           func(context.Context, int, string) (int, error)
+	Div           func(float64, float64) (float64, error)
 	Boom          func(int) `notify:"true"`
 	Missing       func(int) `notify:"true"` // the server has no such method
 	NotifyAbsent  func(context.Context, int) (int, error)
